@@ -648,8 +648,21 @@ def const_expr(e: ast.AST) -> Term:
     return ("opaque", ast.unparse(e))
 
 
+def unwrap_callable(t: Term) -> Term:
+    """jit(vmap(partial(f, ...))) -> f"""
+    while t[0] == "call" and t[2]:
+        nm = fn_name(t[1]) or ""
+        if nm in ("jax.jit", "jax.vmap", "jax.pmap", "functools.partial",
+                  "jax.checkpoint", "jax.remat"):
+            t = t[2][0]
+        else:
+            break
+    return t
+
+
 def make_inliner(repo: Repo, targets: dict[str, FunctionInfo] | None = None,
-                 self_class=None, allow: Callable[[FunctionInfo], bool] | None = None):
+                 self_class=None, allow: Callable[[FunctionInfo], bool] | None = None,
+                 field_table: dict[str, FunctionInfo] | None = None):
     """
     Inline calls to liesel functions: ``self.m(...)`` via the MRO of ``self_class``
     and resolved module-level functions.  Only single-return-term callees are
@@ -665,6 +678,8 @@ def make_inliner(repo: Repo, targets: dict[str, FunctionInfo] | None = None,
             skip_self = True
             if callee is not None and "property" in callee.decorators():
                 callee = None
+            if callee is None and field_table and f[2] in field_table:
+                callee = field_table[f[2]]
         elif f[0] == "g":
             callee = repo.functions.get(f[1])
         elif f[0] == "fn":
@@ -684,6 +699,7 @@ def make_inliner(repo: Repo, targets: dict[str, FunctionInfo] | None = None,
         sub = Evaluator(repo, callee, inline=inliner, inline_depth=ev.inline_depth - 1,
                         bindings=b, closure=closure)
         sub.env.heap.update(ev.env.heap)
+        sub.cond = ev.cond
         r = sub.run()
         rt = r.ret()
         if rt is None:
@@ -698,6 +714,11 @@ def make_inliner(repo: Repo, targets: dict[str, FunctionInfo] | None = None,
             ev.res.effects.append(e)
         for cl in r.calls:
             ev.res.calls.append(cl)
+        for lp in r.loops:
+            ev.res.loops.append(lp)
+        ev.res.inlined = getattr(ev.res, "inlined", [])
+        ev.res.inlined.append((callee, r, t))
+        ev.res.inlined.extend(getattr(r, "inlined", []))
         return rt
 
     return inliner
